@@ -147,5 +147,6 @@ func isConstraintErr(err error) bool {
 
 func isBenignTxErr(err error) bool {
 	return errors.Is(err, store.ErrTxReadConflict) || errors.Is(err, store.ErrMaxConcurrencyLimitExceeded) ||
-		errors.Is(err, store.ErrMaxActiveTransactionsLimitExceeded) || strings.Contains(err.Error(), "too many active snapshots")
+		errors.Is(err, store.ErrMaxActiveTransactionsLimitExceeded) || strings.Contains(err.Error(), "too many active snapshots") ||
+		strings.Contains(err.Error(), "non-transient key to transient") // a statement the store refuses, without effect
 }
